@@ -365,6 +365,14 @@ def run(tier, seed):
                 if dis_plain <= 3:
                     c.broken.append({"file": "correspondence PyList", "line": 0, "statement": "list_step (spec tie to CPython list)",
                                      "error": "history %r: spec %r vs list %r" % (h, model_plain[k], plain)})
+    import liveval
+    lv = vlib.robust_map(liveval.work, [0], chunk=1, timeout=300)[0]
+    if isinstance(lv, tuple) and lv and lv[0] in ("CRASH", "TIMEOUT", "PYEXC"):
+        c.fail("live-value probe %s: %s" % (lv[0], str(lv[1])[:300]), {"probe": "live-value"})
+    else:
+        c.cov["evaluations"] += lv[1]
+        for msg in lv[0][:12]:
+            c.fail(msg, {"probe": "live-value", "what": msg})
     c.cov["distinct_nontrivial"] = len(nontrivial)
     c.cov["rule"] = ("exhaustive: parent size <= %d x two views in every normalised layout (+ raw negative/out-of-range bounds) x one "
                      "operation of every kind with every index in [-n-2, n+2] on parent / view 0 / view 1; random: histories of up to "
@@ -382,6 +390,11 @@ def run(tier, seed):
 
 
 def replay(data):
+    if isinstance(data.get("data"), dict) and str(data["data"].get("probe", "")).startswith("live-value"):
+        import liveval
+        f, _n = getattr(liveval, "work")([0])[0]
+        print("\n".join(f[:12]))
+        return 1 if f else 0
     h = eval(data["data"]["history"])
     rec, failure, _nt = run_history(h)
     print("history", h)
